@@ -452,10 +452,7 @@ func unwrapPure(e ast.Expr) ast.Expr {
 
 func (r *rewriter) rewriteMapRange(rs *ast.RangeStmt) {
 	m := rs.X
-	if !pure(unwrapAll(m)) {
-		r.errorf(rs.Pos(), "range over a map expression with side effects is not simulated")
-		return
-	}
+	impure := !pure(unwrapAll(m))
 	line := r.fset.Position(rs.Pos()).Line
 	r.addSite(rs.Pos(), "maprange", exprString(r.fset, unwrapAll(m)))
 	kName := fmt.Sprintf("simk%d", line)
@@ -475,16 +472,24 @@ func (r *rewriter) rewriteMapRange(rs *ast.RangeStmt) {
 	if needV {
 		vIdent = ident(vName)
 	}
+	// the live read of the entry: m[simk], or - when m has side effects and
+	// must be evaluated once, as Go does - simk.Get() on a simrt.Entry
+	var read ast.Expr = &ast.IndexExpr{X: m, Index: ident(kName)}
+	var keyExpr ast.Expr = ident(kName)
+	if impure {
+		read = &ast.CallExpr{Fun: &ast.SelectorExpr{X: ident(kName), Sel: ident("Get")}}
+		keyExpr = &ast.SelectorExpr{X: ident(kName), Sel: ident("K")}
+	}
 	pre = append(pre,
 		&ast.AssignStmt{Lhs: []ast.Expr{vIdent, ident(okName)}, Tok: token.DEFINE,
-			Rhs: []ast.Expr{&ast.IndexExpr{X: m, Index: ident(kName)}}},
+			Rhs: []ast.Expr{read}},
 		&ast.IfStmt{Cond: &ast.UnaryExpr{Op: token.NOT, X: ident(okName)},
 			Body: &ast.BlockStmt{List: []ast.Stmt{&ast.BranchStmt{Tok: token.CONTINUE}}}},
 	)
 	var lhs, rhs []ast.Expr
 	if !isBlank(rs.Key) {
 		lhs = append(lhs, rs.Key)
-		rhs = append(rhs, ident(kName))
+		rhs = append(rhs, keyExpr)
 	}
 	if needV {
 		lhs = append(lhs, rs.Value)
@@ -504,6 +509,9 @@ func (r *rewriter) rewriteMapRange(rs *ast.RangeStmt) {
 		}
 	}
 	keys := rtCall("Keys", m)
+	if impure {
+		keys = rtCall("Entries", m)
+	}
 	rs.Key = ident("_")
 	rs.Value = ident(kName)
 	rs.Tok = token.DEFINE
